@@ -1,19 +1,20 @@
 (* C09 — the star-allele catalogue is a consistent, build-independent partition.
-   Only statements here; proofs are in proofs/CatalogueProofs.v.  The model of the loader is Catalogue.load
+   Only statements here; proofs are in proofs/CatalogueProofs.v and proofs/CatalogueSplitProofs.v.  The model of the loader is Catalogue.load
    (theories/Catalogue.v: regions, routing of database entries, structural configurations, grouping, naming, partials,
    duplicate removal, alias table, back references), tied to aldy.gene.Gene by harness/c09.py on all 38 x 2 shipped and on
    generated databases.
    Proved for every database (no bound):
-     C09_minor_distinct, C09_config_exists (+ the boolean clause p_config_exists) — about every catalogue [load] returns;
-     C09_partition_partial / major-distinct at the grouping step, C09_alias_sound, C09_core_split_partial,
+     C09_minor_distinct, C09_config_exists (+ the boolean clause p_config_exists), C09_names_unique, C09_core_split (+ p_core_split: through
+     grouping, naming, the partial alleles of every left fusion and duplicate removal) — about every catalogue [load] returns;
+     C09_partition_partial / major-distinct at the grouping step, C09_alias_sound, C09_core_split_one_allele,
      C09_partial_content_partial — about the step of the construction that establishes the clause.
-   NOT proved (checked by the decidable predicates p_partition, p_major_distinct, p_core_split, p_partial_content,
+   NOT proved (checked by the decidable predicates p_partition, p_major_distinct, p_partial_content,
    p_build_independent on every shipped and generated catalogue, model's and implementation's):
      that renaming (unique prefix, label fallback, ':n') and partial construction keep majors distinct and names unique
      (needs the side condition that no database name contains ':' or '#'); reachability through get_allele;
      build independence. *)
 From Coq Require Import String.
-From Aldy Require Import Base Consts NatSort Coord Catalogue CatalogueProofs.
+From Aldy Require Import Base Consts NatSort Coord Catalogue CatalogueProofs CatalogueSplitProofs.
 From Coq Require Import Permutation.
 Import List.
 Open Scope Z_scope.
@@ -57,15 +58,40 @@ Proof. exact dedup_alias_sound. Qed.
 Goal True. idtac "ASSUME C09_alias_sound". Abort.
 Print Assumptions C09_alias_sound.
 
-(* core = the annotated function-altering variants, minor-only = the others (gene.py:709-712,745). PARTIAL: one allele *)
-Theorem C09_core_split_partial : forall (muts : list (mkey * minfo9)) (all : list mut),
+(* core = the annotated function-altering variants, minor-only = the others (gene.py:709-712,745): one allele at the grouping step *)
+Theorem C09_core_split_one_allele : forall (muts : list (mkey * minfo9)) (all : list mut),
   let core := filter (is_functional muts) all in
   (forall x, In x core -> is_functional muts x = true /\ In x all) /\
   (forall x, In x (mset_diff all core) -> is_functional muts x = false /\ In x all) /\
   (forall x, In x all -> In x core \/ In x (mset_diff all core)).
 Proof. exact core_split_partial. Qed.
-Goal True. idtac "ASSUME C09_core_split_partial". Abort.
-Print Assumptions C09_core_split_partial.
+Goal True. idtac "ASSUME C09_core_split_one_allele". Abort.
+Print Assumptions C09_core_split_one_allele.
+
+(* ... and for EVERY catalogue the loader returns, whatever the database: every variant of a major allele's core set is
+   function-altering and no variant of any of its minor alleles is - for the catalogued alleles, the renamed ones, the partial
+   alleles built for every left fusion (merged or new) and the survivors of duplicate removal *)
+Theorem C09_core_split : forall t al db c, load t al db = Some c ->
+  forall kv, In kv (cat_alleles c) ->
+    (forall x, In x (ma_core (snd kv)) -> is_functional (cat_muts c) x = true) /\
+    (forall m x, In m (ma_minors (snd kv)) -> In x (mi_muts m) -> is_functional (cat_muts c) x = false).
+Proof. exact load_core_split. Qed.
+Goal True. idtac "ASSUME C09_core_split". Abort.
+Print Assumptions C09_core_split.
+
+Theorem C09_p_core_split : forall t al db c, load t al db = Some c -> p_core_split c = true.
+Proof. exact load_p_core_split. Qed.
+Goal True. idtac "ASSUME C09_p_core_split". Abort.
+Print Assumptions C09_p_core_split.
+
+(* the dictionary of major alleles of every catalogue the loader returns: no name twice, and each entry is filed under its own
+   name (the second and third conjunct of the decidable clause p_major_distinct; the first - two majors never share
+   (structure, core set) - is NOT a theorem: known finding C09-partial-equals-catalogued-fusion) *)
+Theorem C09_names_unique : forall t al db c, load t al db = Some c ->
+  NoDup (map fst (cat_alleles c)) /\ forall kv, In kv (cat_alleles c) -> fst kv = ma_name (snd kv).
+Proof. exact load_names_unique. Qed.
+Goal True. idtac "ASSUME C09_names_unique". Abort.
+Print Assumptions C09_names_unique.
 
 (* partial alleles of a left fusion f (gene.py:765-817): minor f#x carries exactly the variants of x lying in regions whose
    copy number under f is positive. PARTIAL: the step that creates them (merging of equal partials and duplicate removal
